@@ -142,11 +142,12 @@ Proof.
   intros p to s t H. unfold read_fields.
   destruct (extract_element p to) as [st|r1 tag1 val1]; [cbn [fst snd]; split; [reflexivity | exact H]|].
   destruct (r1 =? 0); [cbn [fst snd]; split; [reflexivity | exact H]|].
-  destruct (negb (head_is tag1 56%N)); [cbn [fst snd]; split; [reflexivity | exact H]|].
+  destruct (negb (tag_exact tag1 56%N)); [cbn [fst snd]; split; [reflexivity | exact H]|].
   destruct (negb (list_eqb (cstr val1) (p_begin p))); [cbn [fst snd]; split; [reflexivity | exact H]|].
   destruct (extract_element p (skipn r1 to)) as [st|r2 tag2 val2]; [cbn [fst snd]; split; [reflexivity | exact H]|].
   destruct (r2 =? 0); [cbn [fst snd]; split; [reflexivity | exact H]|].
-  destruct (negb (head_is tag2 57%N)); [cbn [fst snd]; split; [reflexivity | exact H]|].
+  destruct (negb (tag_exact tag2 57%N)); [cbn [fst snd]; split; [reflexivity | exact H]|].
+  destruct (first_not_digit val2); [cbn [fst snd]; split; [reflexivity | exact H]|].
   apply read_body_same. exact H.
 Qed.
 
@@ -469,6 +470,12 @@ Proof. intros p. unfold bg_sz. rewrite header_length. lia. Qed.
 Lemma skipn_app_exact : forall (a b : list N), skipn (length a) (a ++ b) = b.
 Proof. induction a as [|x a IH]; intros b; cbn; [reflexivity | apply IH]. Qed.
 
+Lemma first_not_digit_digits : forall ds, Forall (fun b => isdigit b = true) ds -> first_not_digit ds = false.
+Proof.
+  intros ds H. destruct ds as [|d ds]; [reflexivity|]. inversion H as [|? ? Hd _]; subst.
+  cbn [first_not_digit]. rewrite Hd. apply andb_false_r.
+Qed.
+
 (* the two extract_element calls on "8=<begin>|9=<ds>|" *)
 Lemma read_fields_preamble : forall p ds s2,
   wf_params p = true -> Forall (fun b => isdigit b = true) ds -> length ds < p_valcap p ->
@@ -485,7 +492,7 @@ Proof.
   rewrite ee_field; [|repeat constructor|cbn [length]; lia|exact Bs|exact Bl].
   cbn [length]. replace (1 + 1 + length (p_begin p) + 1 =? 0) with false
     by (symmetry; apply Nat.eqb_neq; lia).
-  cbn [head_is]. rewrite N.eqb_refl. cbn [negb].
+  cbn [tag_exact]. rewrite N.eqb_refl. cbn [negb].
   rewrite (cstr_nonul _ Bn), list_eqb_refl. cbn [negb].
   assert (E2 : header (p_begin p) ++ ds ++ [SOH] = ([56; 61]%N ++ p_begin p ++ [SOH]) ++ more).
   { unfold header, more, SOH. rewrite <- !app_assoc. reflexivity. }
@@ -499,7 +506,8 @@ Proof.
   2:{ eapply Forall_impl; [|exact Hd]. intros b Hb. apply digit_nosoh, Hb. }
   cbn [length]. replace (1 + 1 + length ds + 1 =? 0) with false
     by (symmetry; apply Nat.eqb_neq; lia).
-  cbn [head_is]. rewrite N.eqb_refl. cbn [negb].
+  cbn [tag_exact]. rewrite N.eqb_refl. cbn [negb].
+  rewrite (first_not_digit_digits ds Hd).
   rewrite cstr_nonul by (eapply Forall_impl; [|exact Hd]; intros b Hb; apply digit_nonul, Hb).
   rewrite atoi_digits by exact Hd. reflexivity.
 Qed.
@@ -1059,7 +1067,7 @@ Proof.
   rewrite E.
   rewrite ee_field; [|repeat constructor|cbn [length]; lia|exact Hv|exact Lc].
   cbn [length]. replace (1 + 1 + length v + 1 =? 0) with false by (symmetry; apply Nat.eqb_neq; lia).
-  cbn [head_is]. rewrite N.eqb_refl. cbn [negb]. rewrite Hne. cbn [negb fst]. reflexivity.
+  cbn [tag_exact]. rewrite N.eqb_refl. cbn [negb]. rewrite Hne. cbn [negb fst]. reflexivity.
 Qed.
 
 Lemma bad_beginstring_lemma : forall p msgs chunks v tail closed,
@@ -1156,11 +1164,12 @@ Proof.
   intros p to s. unfold read_fields.
   destruct (extract_element p to) as [st|r1 tag1 val1]; [cbn [fst snd]; split; [lia|discriminate]|].
   destruct (r1 =? 0); [cbn [fst snd]; split; [lia|discriminate]|].
-  destruct (negb (head_is tag1 56%N)); [cbn [fst snd]; split; [lia|discriminate]|].
+  destruct (negb (tag_exact tag1 56%N)); [cbn [fst snd]; split; [lia|discriminate]|].
   destruct (negb (list_eqb (cstr val1) (p_begin p))); [cbn [fst snd]; split; [lia|discriminate]|].
   destruct (extract_element p (skipn r1 to)) as [st|r2 tag2 val2]; [cbn [fst snd]; split; [lia|discriminate]|].
   destruct (r2 =? 0); [cbn [fst snd]; split; [lia|discriminate]|].
-  destruct (negb (head_is tag2 57%N)); [cbn [fst snd]; split; [lia|discriminate]|].
+  destruct (negb (tag_exact tag2 57%N)); [cbn [fst snd]; split; [lia|discriminate]|].
+  destruct (first_not_digit val2); [cbn [fst snd]; split; [lia|discriminate]|].
   apply read_body_total.
 Qed.
 
@@ -1313,11 +1322,12 @@ Proof.
   unfold read_fields.
   destruct (extract_element_no_oob p to Lt Lv) as (r1 & tag1 & val1 & E1). rewrite E1.
   destruct (r1 =? 0); [cbn [fst]; discriminate|].
-  destruct (negb (head_is tag1 56%N)); [cbn [fst]; discriminate|].
+  destruct (negb (tag_exact tag1 56%N)); [cbn [fst]; discriminate|].
   destruct (negb (list_eqb (cstr val1) (p_begin p))); [cbn [fst]; discriminate|].
   destruct (extract_element_no_oob p (skipn r1 to) Lt Lv) as (r2 & tag2 & val2 & E2). rewrite E2.
   destruct (r2 =? 0); [cbn [fst]; discriminate|].
-  destruct (negb (head_is tag2 57%N)); [cbn [fst]; discriminate|].
+  destruct (negb (tag_exact tag2 57%N)); [cbn [fst]; discriminate|].
+  destruct (first_not_digit val2); [cbn [fst]; discriminate|].
   apply read_body_no_oob. exact W.
 Qed.
 
@@ -1570,7 +1580,7 @@ Proof.
   intros p rest0 s2 W (tg & vl & E). destruct (wf_inv p W) as (_ & Bn & _).
   unfold read_fields. rewrite (first_field_ok p rest0 W).
   replace (length (p_begin p) + 3 =? 0) with false by (symmetry; apply Nat.eqb_neq; lia).
-  cbn [head_is]. rewrite N.eqb_refl. cbn [negb].
+  cbn [tag_exact]. rewrite N.eqb_refl. cbn [negb].
   rewrite (cstr_nonul _ Bn), list_eqb_refl. cbn [negb].
   replace (length (p_begin p) + 3) with (length ([56; 61]%N ++ p_begin p ++ [SOH]))
     by (rewrite !app_length; cbn [length]; lia).
@@ -1672,6 +1682,326 @@ Proof.
 Qed.
 
 (* ========================================================================================== *)
+(* D4. wrong tags and a non-numeric BodyLength, with the field tests of cb750d0 / b287a2f       *)
+
+Lemma ee_val_tag : forall from p ii rtag rval,
+  length rtag < p_tagcap p -> length rval < p_valcap p ->
+  exists c v, ee_val p from ii rtag rval = EERet c (rev rtag) v.
+Proof.
+  assert (T : forall p ret rtag rval, length rtag < p_tagcap p -> length rval < p_valcap p ->
+              exists c v, ee_term p ret rtag rval = EERet c (rev rtag) v).
+  { intros p ret rtag rval Lt Lv. unfold ee_term.
+    destruct (p_tagcap p <=? length rtag) eqn:E1; [apply Nat.leb_le in E1; lia|].
+    destruct (p_valcap p <=? length rval) eqn:E2; [apply Nat.leb_le in E2; lia|].
+    do 2 eexists. reflexivity. }
+  induction from as [|b r IH]; intros p ii rtag rval Lt Lv; cbn [ee_val].
+  - apply T; assumption.
+  - destruct (b =? SOH)%N; [apply T; assumption|].
+    destruct (length rval =? p_valcap p - 1) eqn:E0; [apply T; assumption|].
+    apply Nat.eqb_neq in E0.
+    destruct (p_valcap p <=? length rval) eqn:E; [apply Nat.leb_le in E; lia|].
+    apply IH; [assumption | cbn [length]; lia].
+Qed.
+
+(* a field whose tag fits: whatever the value does, the tag extracted is the tag written *)
+Lemma ee_after_tag : forall p t z,
+  Forall (fun b => isdigit b = true) t -> length t < p_tagcap p -> 1 <= p_valcap p ->
+  exists c v, extract_element p (t ++ EQS :: z) = EERet c t v.
+Proof.
+  intros p t z Ht Lt Lv. unfold extract_element.
+  rewrite ee_tag_run by (cbn [length]; (assumption || lia)).
+  destruct (ee_val_tag z p (S (0 + length t)) (rev t ++ []) []) as (c & v & E).
+  - rewrite app_nil_r, rev_length. exact Lt.
+  - cbn [length]. lia.
+  - rewrite E. rewrite app_nil_r, rev_involutive. do 2 eexists. reflexivity.
+Qed.
+
+Lemma ee_val_nosoh : forall u p ii rtag rval,
+  Forall (fun b => nosoh b = true) u -> length rtag < p_tagcap p -> length rval < p_valcap p ->
+  exists t v, ee_val p u ii rtag rval = EERet 0 t v.
+Proof.
+  assert (T : forall p rtag rval, length rtag < p_tagcap p -> length rval < p_valcap p ->
+              exists t v, ee_term p 0 rtag rval = EERet 0 t v).
+  { intros p rtag rval Lt Lv. unfold ee_term.
+    destruct (p_tagcap p <=? length rtag) eqn:E1; [apply Nat.leb_le in E1; lia|].
+    destruct (p_valcap p <=? length rval) eqn:E2; [apply Nat.leb_le in E2; lia|].
+    do 2 eexists. reflexivity. }
+  induction u as [|b u IH]; intros p ii rtag rval Hu Lt Lv; cbn [ee_val].
+  - apply T; assumption.
+  - inversion Hu as [|? ? Hb Hu']; subst. unfold nosoh in Hb.
+    destruct (b =? SOH)%N; [discriminate|].
+    destruct (length rval =? p_valcap p - 1) eqn:E0; [apply T; assumption|].
+    apply Nat.eqb_neq in E0.
+    destruct (p_valcap p <=? length rval) eqn:E; [apply Nat.leb_le in E; lia|].
+    apply IH; [assumption | assumption | cbn [length]; lia].
+Qed.
+
+Lemma tag_exact_single : forall t c, t <> [c] -> tag_exact t c = false.
+Proof.
+  intros t c H. destruct t as [|a [|b t]]; cbn [tag_exact]; try reflexivity.
+  destruct (a =? c)%N eqn:E; [|reflexivity]. apply N.eqb_eq in E. subst a. congruence.
+Qed.
+
+(* ---- first tag other than "8" ------------------------------------------------------------------ *)
+Lemma bad_tag1_read : forall p s t z,
+  wf_params p = true -> concat s = t ++ [EQS] ++ z ->
+  Forall (fun b => isdigit b = true) t -> t <> [56%N] ->
+  length t < p_tagcap p -> length t + 1 <= bg_sz p ->
+  illegal_or_eos (fst (read_msg p s)).
+Proof.
+  intros p s t z W C Ht Hne Lt Lb. pose proof (wf_safe p W) as Sf.
+  destruct (safe_inv p Sf) as (_ & Vc & _ & _).
+  destruct (read_msg_cases p s Sf) as [E|[[x E]|(to & s2 & y & l & E & Ec & Et & Lbg & _ & _)]].
+  - rewrite E. exact I.
+  - rewrite E. exact I.
+  - rewrite E.
+    assert (Pre : firstn (bg_sz p) (concat s) = t ++ EQS :: firstn (bg_sz p - length t - 1) z).
+    { rewrite C. rewrite firstn_app. rewrite firstn_all2 by lia.
+      remember (bg_sz p - length t - 1) as k eqn:Hk.
+      replace (bg_sz p - length t) with (S k) by lia. reflexivity. }
+    rewrite Pre in Et. rewrite Et. rewrite <- app_assoc. cbn [app].
+    unfold read_fields.
+    destruct (ee_after_tag p t (firstn (bg_sz p - length t - 1) z ++ y ++ [l]) Ht Lt Vc) as (c & v & Ee).
+    rewrite Ee. destruct (c =? 0); [exact I|].
+    rewrite (tag_exact_single t 56%N Hne). exact I.
+Qed.
+
+(* ---- second tag other than "9" (the '=' has to stand within the fixed-size first read) ------- *)
+Lemma bad_tag2_read : forall p s t z,
+  wf_params p = true -> concat s = [56; 61]%N ++ p_begin p ++ [SOH] ++ t ++ [EQS] ++ z ->
+  Forall (fun b => isdigit b = true) t -> t <> [57%N] ->
+  length t < p_tagcap p -> length t <= 2 ->
+  illegal_or_eos (fst (read_msg p s)).
+Proof.
+  intros p s t z W C Ht Hne Lt L2. pose proof (wf_safe p W) as Sf.
+  destruct (safe_inv p Sf) as (_ & Vc & _ & _). destruct (wf_inv p W) as (_ & Bn & _).
+  destruct (read_msg_cases p s Sf) as [E|[[x E]|(to & s2 & y & l & E & Ec & Et & Lbg & _ & _)]].
+  - rewrite E. exact I.
+  - rewrite E. exact I.
+  - rewrite E.
+    set (A := [56; 61]%N ++ p_begin p ++ [SOH]).
+    assert (LA : length A = length (p_begin p) + 3) by (unfold A; rewrite !app_length; cbn [length]; lia).
+    assert (CA : concat s = A ++ (t ++ EQS :: z)).
+    { rewrite C. unfold A. rewrite <- !app_assoc. reflexivity. }
+    assert (Pre : firstn (bg_sz p) (concat s) = A ++ t ++ EQS :: firstn (bg_sz p - length A - length t - 1) z).
+    { rewrite CA. rewrite firstn_app. rewrite firstn_all2 by (unfold bg_sz; lia).
+      f_equal. rewrite firstn_app. rewrite firstn_all2 by (unfold bg_sz; lia). f_equal.
+      remember (bg_sz p - length A - length t - 1) as k eqn:Hk.
+      replace (bg_sz p - length A - length t) with (S k) by (unfold bg_sz in *; lia).
+      reflexivity. }
+    rewrite Pre in Et.
+    set (more := firstn (bg_sz p - length A - length t - 1) z ++ y ++ [l]).
+    assert (Eto : to = [56; 61]%N ++ p_begin p ++ [SOH] ++ (t ++ EQS :: more)).
+    { rewrite Et. unfold A, more. rewrite <- !app_assoc. reflexivity. }
+    rewrite Eto. unfold read_fields. rewrite (first_field_ok p _ W).
+    replace (length (p_begin p) + 3 =? 0) with false by (symmetry; apply Nat.eqb_neq; lia).
+    cbn [tag_exact]. rewrite N.eqb_refl. cbn [negb].
+    rewrite (cstr_nonul _ Bn), list_eqb_refl. cbn [negb].
+    replace (length (p_begin p) + 3) with (length ([56; 61]%N ++ p_begin p ++ [SOH]))
+      by (rewrite !app_length; cbn [length]; lia).
+    replace ([56; 61]%N ++ p_begin p ++ [SOH] ++ t ++ EQS :: more) with (([56; 61]%N ++ p_begin p ++ [SOH]) ++ (t ++ EQS :: more))
+      by (rewrite <- !app_assoc; reflexivity).
+    rewrite skipn_app_exact.
+    destruct (ee_after_tag p t more Ht Lt Vc) as (c & v & Ee). rewrite Ee.
+    destruct (c =? 0); [exact I|].
+    rewrite (tag_exact_single t 57%N Hne). exact I.
+Qed.
+
+(* the oracle: a first / second tag other than 8 / 9 is a corrupted preamble *)
+Lemma tag_eq_inv : forall c0 (t x y : list N), isdigit c0 = true ->
+  Forall (fun b => isdigit b = true) t -> t ++ 61%N :: x = c0 :: 61%N :: y -> t = [c0].
+Proof.
+  intros c0 t x y Hc Ht E. destruct t as [|a [|b t]]; cbn in E.
+  - injection E as E _. subst c0. discriminate Hc.
+  - injection E as -> _. reflexivity.
+  - injection E as _ E _. subst b. inversion Ht as [|? ? _ Ht']; subst.
+    inversion Ht' as [|? ? Hb _]; subst. discriminate Hb.
+Qed.
+
+Lemma bad_tag_strip : forall c0 (t z hd : list N), isdigit c0 = true ->
+  Forall (fun b => isdigit b = true) t -> t <> [c0] ->
+  strip (c0 :: 61%N :: hd) (t ++ 61%N :: z) = None /\
+  is_prefix (t ++ 61%N :: z) (c0 :: 61%N :: hd) = false.
+Proof.
+  intros c0 t z hd Hc Ht Hne. split.
+  - destruct (strip (c0 :: 61%N :: hd) (t ++ 61%N :: z)) as [r|] eqn:St; [|reflexivity].
+    exfalso. apply strip_some in St. cbn [app] in St. apply Hne. eapply tag_eq_inv; eassumption.
+  - destruct (is_prefix (t ++ 61%N :: z) (c0 :: 61%N :: hd)) eqn:Pf; [|reflexivity].
+    exfalso. apply is_prefix_app in Pf. destruct Pf as [r Pf]. rewrite <- app_assoc in Pf. cbn [app] in Pf.
+    apply Hne. eapply tag_eq_inv; [exact Hc | exact Ht | symmetry; exact Pf].
+Qed.
+
+Lemma strip_app2 : forall a b r, strip (a ++ b) (a ++ r) = strip b r.
+Proof. induction a as [|x a IH]; intros b r; cbn; [reflexivity|]. rewrite N.eqb_refl. apply IH. Qed.
+
+Lemma is_prefix_app2 : forall a r b, is_prefix (a ++ r) (a ++ b) = is_prefix r b.
+Proof. induction a as [|x a IH]; intros r b; cbn; [reflexivity|]. rewrite N.eqb_refl. apply IH. Qed.
+
+Lemma bad_tag1_spec : forall p t z,
+  Forall (fun b => isdigit b = true) t -> t <> [56%N] ->
+  spec_frame (p_begin p) (len_limit p) (max_width p) (t ++ [EQS] ++ z) = FBad.
+Proof.
+  intros p t z Ht Hne. unfold spec_frame, header, EQS. cbn [app].
+  destruct (bad_tag_strip 56%N t z (p_begin p ++ [1; 57; 61]%N) eq_refl Ht Hne) as [E1 E2].
+  rewrite E1, E2. reflexivity.
+Qed.
+
+Lemma bad_tag2_spec : forall p t z,
+  Forall (fun b => isdigit b = true) t -> t <> [57%N] ->
+  spec_frame (p_begin p) (len_limit p) (max_width p) ([56; 61]%N ++ p_begin p ++ [SOH] ++ t ++ [EQS] ++ z) = FBad.
+Proof.
+  intros p t z Ht Hne. unfold spec_frame.
+  set (A := [56; 61]%N ++ p_begin p ++ [SOH]).
+  assert (EH : header (p_begin p) = A ++ [57; 61]%N).
+  { unfold header, A, SOH. rewrite <- !app_assoc. reflexivity. }
+  assert (ES : [56; 61]%N ++ p_begin p ++ [SOH] ++ t ++ [EQS] ++ z = A ++ (t ++ 61%N :: z)).
+  { unfold A, EQS. rewrite <- !app_assoc. reflexivity. }
+  rewrite EH, ES, strip_app2, is_prefix_app2.
+  destruct (bad_tag_strip 57%N t z [] eq_refl Ht Hne) as [E1 E2].
+  rewrite E1, E2. reflexivity.
+Qed.
+
+Lemma illegal_or_eos_err : forall o, illegal_or_eos o -> err_or_eos o = true.
+Proof. intros o H. destruct o; cbn in *; try contradiction; reflexivity. Qed.
+
+Definition illegal_or_eos_end (e : ending) : Prop :=
+  match e with EWait | EPeerReset | EIllegal _ => True | _ => False end.
+
+Lemma illegal_or_eos_ending : forall o closed, illegal_or_eos o -> illegal_or_eos_end (ending_of o closed).
+Proof. intros o closed H. destruct o; cbn in *; try contradiction; try exact I. destruct closed; exact I. Qed.
+
+Lemma bad_tag_lemma : forall p msgs chunks t z closed,
+  wf_params p = true -> Forall (fun m => frame_ok p m = true) msgs ->
+  Forall (fun b => isdigit b = true) t -> length t < p_tagcap p ->
+  ((concat chunks = concat msgs ++ t ++ [EQS] ++ z /\ t <> [56%N] /\ length t + 1 <= bg_sz p) \/
+   (concat chunks = concat msgs ++ [56; 61]%N ++ p_begin p ++ [SOH] ++ t ++ [EQS] ++ z /\ t <> [57%N] /\ length t <= 2)) ->
+  (exists e, run p chunks closed = (msgs, e) /\ illegal_or_eos_end e) /\ model_ok p chunks closed = true.
+Proof.
+  intros p msgs chunks t z closed W Hv Ht Lt [(C & Hne & Lb)|(C & Hne & L2)].
+  - set (rest := t ++ [EQS] ++ z) in *.
+    assert (R : illegal_or_eos (fst (read_msg p [rest]))).
+    { apply (bad_tag1_read p [rest] t z W); try assumption. cbn [concat]. apply app_nil_r. }
+    destruct (bad_after_valid_ok p msgs chunks rest closed W Hv C) as [R1 R2].
+    + unfold rest, EQS. destruct t; discriminate.
+    + apply bad_tag1_spec; assumption.
+    + apply illegal_or_eos_err, R.
+    + split; [|exact R2]. eexists. split; [exact R1|]. apply illegal_or_eos_ending, R.
+  - set (rest := [56; 61]%N ++ p_begin p ++ [SOH] ++ t ++ [EQS] ++ z) in *.
+    assert (R : illegal_or_eos (fst (read_msg p [rest]))).
+    { apply (bad_tag2_read p [rest] t z W); try assumption. cbn [concat]. apply app_nil_r. }
+    destruct (bad_after_valid_ok p msgs chunks rest closed W Hv C) as [R1 R2].
+    + unfold rest. cbn. discriminate.
+    + apply bad_tag2_spec; assumption.
+    + apply illegal_or_eos_err, R.
+    + split; [|exact R2]. eexists. split; [exact R1|]. apply illegal_or_eos_ending, R.
+Qed.
+
+(* ---- non-numeric BodyLength, wherever its first non-digit stands ------------------------------ *)
+Definition nonnum_outcome (o : outcome) : Prop :=
+  match o with OEos | OIllegal _ => True | OBadLen n => n = 0%N | _ => False end.
+
+Lemma nonnumeric_first_read : forall p s c tail,
+  wf_params p = true -> concat s = header (p_begin p) ++ [c] ++ tail ->
+  isdigit c = false -> nosoh c = true ->
+  nonnum_outcome (fst (read_msg p s)).
+Proof.
+  intros p s c tail W C Hc Hs. pose proof (wf_safe p W) as Sf.
+  destruct (safe_inv p Sf) as (_ & Vc & _ & _).
+  destruct (wf_inv p W) as (_ & Bn & Tc & _).
+  destruct (read_msg_cases p s Sf) as [E|[[x E]|(to & s2 & y & l & E & Ec & Et & Lbg & Hy & _)]].
+  - rewrite E. exact I.
+  - rewrite E. exact I.
+  - rewrite E.
+    assert (Pre : firstn (bg_sz p) (concat s) = header (p_begin p) ++ [c]).
+    { rewrite C, app_assoc. rewrite bg_header.
+      replace (length (header (p_begin p)) + 1) with (length (header (p_begin p) ++ [c]))
+        by (rewrite app_length; reflexivity).
+      rewrite firstn_app, Nat.sub_diag, firstn_all. cbn [firstn]. apply app_nil_r. }
+    rewrite Pre in Et.
+    set (val := c :: y ++ [l]).
+    assert (Eto : to = [56; 61]%N ++ p_begin p ++ [SOH] ++ ([57%N] ++ EQS :: val)).
+    { rewrite Et. unfold header, val, EQS, SOH. rewrite <- !app_assoc. reflexivity. }
+    rewrite Eto. unfold read_fields. rewrite (first_field_ok p _ W).
+    replace (length (p_begin p) + 3 =? 0) with false by (symmetry; apply Nat.eqb_neq; lia).
+    cbn [tag_exact]. rewrite N.eqb_refl. cbn [negb].
+    rewrite (cstr_nonul _ Bn), list_eqb_refl. cbn [negb].
+    replace (length (p_begin p) + 3) with (length ([56; 61]%N ++ p_begin p ++ [SOH]))
+      by (rewrite !app_length; cbn [length]; lia).
+    replace ([56; 61]%N ++ p_begin p ++ [SOH] ++ [57%N] ++ EQS :: val) with (([56; 61]%N ++ p_begin p ++ [SOH]) ++ ([57%N] ++ EQS :: val))
+      by (rewrite <- !app_assoc; reflexivity).
+    rewrite skipn_app_exact. unfold extract_element.
+    rewrite ee_tag_run; [|repeat constructor|cbn [length]; lia].
+    cbn [length rev app Nat.add].
+    assert (Hyn : Forall (fun b => nosoh b = true) (c :: y)).
+    { constructor; [exact Hs|]. eapply Forall_impl; [|exact Hy]. intros b Hb. apply digit_nosoh, Hb. }
+    destruct (nosoh l) eqn:Hl.
+    + (* no SOH at all: the value runs to the end of [to] *)
+      destruct (ee_val_nosoh val p 2 [57%N] []) as (tg & vl & Ee).
+      * unfold val. rewrite app_comm_cons. apply Forall_app. split; [exact Hyn | constructor; [exact Hl | constructor]].
+      * cbn [length]; lia.
+      * cbn [length]; lia.
+      * rewrite Ee. cbn [Nat.eqb fst]. exact I.
+    + unfold nosoh in Hl. apply negb_false_iff in Hl. apply N.eqb_eq in Hl. subst l.
+      destruct (le_lt_dec (p_valcap p) (length (c :: y))) as [Lo|Lo].
+      * (* the value does not fit val[] *)
+        destruct (ee_val_overlong (c :: y) p [SOH] 2 [57%N] [] Hyn) as (tg & vl & Ee);
+          [cbn [length] in *; lia | cbn [length]; lia | cbn [length]; lia|].
+        unfold val. rewrite app_comm_cons. rewrite Ee. cbn [Nat.eqb fst]. exact I.
+      * unfold val. rewrite app_comm_cons.
+        rewrite ee_val_run by (cbn [length] in *; (assumption || lia)).
+        unfold ee_term. cbn [length].
+        destruct (p_tagcap p <=? 1) eqn:E1; [apply Nat.leb_le in E1; lia|].
+        rewrite app_nil_r, rev_length.
+        destruct (p_valcap p <=? length (c :: y)) eqn:E2; [apply Nat.leb_le in E2; lia|].
+        rewrite rev_involutive. change (rev [57%N]) with [57%N].
+        cbn [Nat.eqb tag_exact]. rewrite N.eqb_refl. cbn [negb].
+        cbn [first_not_digit]. rewrite Hc. cbn [negb].
+        destruct (c =? 0)%N eqn:E0; cbn [negb andb]; [|exact I].
+        cbn [cstr]. rewrite E0. unfold read_body. cbn. reflexivity.
+Qed.
+
+Lemma nonnumeric_spec2 : forall p ds0 c tail,
+  Forall (fun b => isdigit b = true) ds0 -> isdigit c = false -> nosoh c = true ->
+  spec_frame (p_begin p) (len_limit p) (max_width p) (header (p_begin p) ++ ds0 ++ [c] ++ tail) = FBad.
+Proof.
+  intros p ds0 c tail Hd Hc Hs. unfold spec_frame. rewrite strip_app.
+  destruct (take_drop_app ds0 c tail Hd Hc) as [E1 E2]. cbn [app]. rewrite E1, E2.
+  match goal with |- context [?a <? ?b] => destruct (a <? b); [reflexivity|] end.
+  unfold nosoh, SOH in Hs. change sp_soh with 1%N. destruct (c =? 1)%N; [discriminate|]. reflexivity.
+Qed.
+
+(* a BodyLength value with a byte that is neither digit nor SOH, at ANY position (the former
+   hypothesis "the first character is a digit" is gone): error, nothing handed on *)
+Lemma nonnumeric2_lemma : forall p msgs chunks ds0 c tail closed,
+  wf_params p = true -> Forall (fun m => frame_ok p m = true) msgs ->
+  concat chunks = concat msgs ++ header (p_begin p) ++ ds0 ++ [c] ++ tail ->
+  Forall (fun b => isdigit b = true) ds0 -> isdigit c = false -> nosoh c = true ->
+  length ds0 <= p_valcap p ->
+  (exists e, run p chunks closed = (msgs, e) /\
+             match e with EWait | EPeerReset | EIllegal _ => True | EBadLen n => n = 0%N | _ => False end) /\
+  model_ok p chunks closed = true.
+Proof.
+  intros p msgs chunks ds0 c tail closed W Hv C Hd Hc Hs Ld.
+  set (rest := header (p_begin p) ++ ds0 ++ [c] ++ tail) in *.
+  assert (R : nonnum_outcome (fst (read_msg p [rest]))).
+  { destruct ds0 as [|d1 ds'].
+    - apply (nonnumeric_first_read p [rest] c tail W); try assumption. cbn [concat]. apply app_nil_r.
+    - inversion Hd as [|? ? Hd1 Hd']; subst.
+      assert (Rd : fst (read_msg p [rest]) = OIllegal (cstr (header (p_begin p) ++ [d1] ++ ds'))).
+      { apply (nonnumeric_read p [rest] d1 ds' c tail W);
+          [cbn [concat]; unfold rest; rewrite app_nil_r; reflexivity | assumption | assumption | assumption
+          | cbn [length] in Ld; lia]. }
+      rewrite Rd. exact I. }
+  destruct (bad_after_valid_ok p msgs chunks rest closed W Hv C) as [R1 R2].
+  - unfold rest, header. cbn. discriminate.
+  - apply nonnumeric_spec2; assumption.
+  - destruct (fst (read_msg p [rest])); cbn in R; try contradiction; reflexivity.
+  - split; [|exact R2]. eexists. split; [exact R1|].
+    destruct (fst (read_msg p [rest])); cbn in R |- *; try contradiction; try exact I; try exact R.
+    destruct closed; exact I.
+Qed.
+
+(* ========================================================================================== *)
 (* E. where the faithful model violates the property: witnesses                               *)
 
 From Coq Require Import String Ascii.
@@ -1721,15 +2051,25 @@ Lemma bodylength_wrap_refuted_lemma :
   spec_frame fix42 (len_limit P42) (max_width P42) w_wrap = FBad /\ model_ok P42 [w_wrap] true = false.
 Proof. repeat split; vm_compute; reflexivity. Qed.
 
-Lemma lenient_preamble_refuted_lemma :
-  (run P42 [w_colon] true = ([w_colon], EPeerReset) /\
-   spec_frame fix42 (len_limit P42) (max_width P42) w_colon = FBad /\ model_ok P42 [w_colon] true = false) /\
-  (run P42 [w_tag88] true = ([w_tag88], EPeerReset) /\
-   spec_frame fix42 (len_limit P42) (max_width P42) w_tag88 = FBad /\ model_ok P42 [w_tag88] true = false) /\
-  (run P42 [w_tag93] true = ([w_tag93], EPeerReset) /\
-   spec_frame fix42 (len_limit P42) (max_width P42) w_tag93 = FBad /\ model_ok P42 [w_tag93] true = false) /\
-  (run P42 [w_nul] true = ([w_nul], EPeerReset) /\
-   spec_frame fix42 (len_limit P42) (max_width P42) w_nul = FBad /\ model_ok P42 [w_nul] true = false).
+(* before cb750d0 / b287a2f: "9=:" was BodyLength 10, tags 88 / 93 passed for 8 / 9: frames with a
+   corrupted preamble were handed on.  With the repaired tests the same streams are refused
+   (IllegalMessage), nothing is handed on and the oracle holds. *)
+Lemma lenient_orig_refuted_lemma :
+  (run_orig P42 [w_colon] true = ([w_colon], EPeerReset) /\
+   spec_frame fix42 (len_limit P42) (max_width P42) w_colon = FBad /\
+   fst (run P42 [w_colon] true) = [] /\ model_ok P42 [w_colon] true = true) /\
+  (run_orig P42 [w_tag88] true = ([w_tag88], EPeerReset) /\
+   spec_frame fix42 (len_limit P42) (max_width P42) w_tag88 = FBad /\
+   fst (run P42 [w_tag88] true) = [] /\ model_ok P42 [w_tag88] true = true) /\
+  (run_orig P42 [w_tag93] true = ([w_tag93], EPeerReset) /\
+   spec_frame fix42 (len_limit P42) (max_width P42) w_tag93 = FBad /\
+   fst (run P42 [w_tag93] true) = [] /\ model_ok P42 [w_tag93] true = true).
+Proof. repeat split; vm_compute; reflexivity. Qed.
+
+(* not repaired: BeginString is compared as a C string *)
+Lemma beginstring_nul_refuted_lemma :
+  run P42 [w_nul] true = ([w_nul], EPeerReset) /\
+  spec_frame fix42 (len_limit P42) (max_width P42) w_nul = FBad /\ model_ok P42 [w_nul] true = false.
 Proof. repeat split; vm_compute; reflexivity. Qed.
 
 (* ---- non-vacuity --------------------------------------------------------------------------- *)
